@@ -84,6 +84,18 @@ theorem exact_line_matches_one (mt : Matcher) (l : SortLine) (h : l.dir.doGlob =
           · subst hx; exact Or.inr hne
           · exact h4 x hx
 
+/-- **Quoted names.**  Every name — whatever bytes it contains — can be written in a sort file between quotes
+(`\"` for `"`, `\\` for `\`) and is then decoded to exactly that name (and canonicalised like an unquoted one).
+This is the repaired decoder; the pinned one appends the stale tail of the buffer (`Witness.d26_current`). -/
+theorem quoted_name_decodes (n : List UInt8) :
+    decodeFilename true (QUOTE :: (escapeName n ++ [QUOTE]))
+      = match Sqfs.Path.canonicalize n with
+        | none => .error .canon
+        | some r => .ok r := by
+  unfold decodeFilename
+  simp only [if_true, unquote_escape n [], ne_eq, not_true_eq_false, if_false]
+  cases Sqfs.Path.canonicalize n <;> rfl
+
 -- non-vacuity: a concrete run with negative priorities, a tie, overlapping glob and exact lines
 example :
     let mt : Matcher := fun _ pat path => pat == [42] || pat == path      -- "*" matches everything
